@@ -370,3 +370,17 @@ Proof.
   pose proof (RT l k (val_of x) [] [] Hc Hty Hnf Hnz Hwell Hlen Hcnt) as R.
   cbn [app] in R. rewrite app_nil_r in R. change (zlen []) with 0 in R. rewrite R, Hcv. reflexivity.
 Qed.
+
+(* fixed-point leaves break stability: fixed8x1 decoded from the word -1 is -0.1; the encoder takes
+   the absolute value, so the re-encoding (the word 1) decodes to +0.1 *)
+Theorem stable_fixed_refuted :
+  exists (c : tcomp) (bs : bytes) (x : cval) (e : bytes),
+    tc_wf c = true /\ DecodeABIData c bs 0 = Ok x /\ EncodeABIData x = Ok e /\
+    match DecodeABIData c e 0 with Ok x' => cval_eqb x x' | _ => false end = false.
+Proof.
+  pose (leaf := TCElem EFixed [x38; x78; x31] 8 1 []).
+  exists (TCTuple [leaf] []), (repeat xff 32).
+  exists (CV (Some (TCTuple [leaf] [])) [CV (Some leaf) [] (GBigFloat (BFin (-14757395258967641293) (-67) 64))] GNil).
+  exists (repeat x00 31 ++ [x01]).
+  split; [vm_compute; reflexivity|]. split; [vm_compute; reflexivity|]. split; vm_compute; reflexivity.
+Qed.
